@@ -1617,12 +1617,14 @@ class ContractionTree:
 
         # make sure all flops and size information has been populated
         tree.contract_stats()
-        # ... including which indices are involved at every node: this is
-        # computed lazily from the children legs, so it must be known *before*
-        # any node is modified below (nodes created with pre-computed legs,
-        # cost and size, e.g. by simulated annealing, don't have it yet)
+        # ... including the legs and which indices are involved at every node:
+        # these are computed lazily from the children legs and the sliced
+        # indices, so must be known *before* anything is modified below (nodes
+        # created with pre-computed legs, cost and size, e.g. by simulated
+        # annealing, don't have them yet)
         for node in tree.children:
             tree.get_involved(node)
+            tree.get_legs(node)
 
         d = tree.size_dict[ind]
         if project is None:
